@@ -1,0 +1,127 @@
+//go:build verif
+// +build verif
+
+// Package verifhook holds instrumentation points used by the external
+// verification harness (build tag "verif").
+package verifhook
+
+import (
+	"os"
+	"runtime"
+	"strconv"
+	"strings"
+	"sync"
+	"sync/atomic"
+	"time"
+)
+
+const Enabled = true
+
+// Event is one observation emitted from inside esbuild.
+type Event struct {
+	Tick uint64 // global logical clock, strictly increasing
+	Kind string
+	A, B uint64
+	S    string
+}
+
+var (
+	clock     uint64
+	sinkMu    sync.RWMutex
+	sink      func(Event)
+	yieldSeed uint64
+	yieldPerm uint32 // probability in 1/1000; 0 = off
+	yieldCtr  uint64
+	nextID    uint64
+)
+
+// Tick advances and returns the global logical clock.
+func Tick() uint64 { return atomic.AddUint64(&clock, 1) }
+
+// NextID returns a fresh identifier (used to name build contexts).
+func NextID() uint64 { return atomic.AddUint64(&nextID, 1) }
+
+func SetSink(f func(Event)) {
+	sinkMu.Lock()
+	sink = f
+	sinkMu.Unlock()
+}
+
+func SetYield(seed uint64, permille int) {
+	atomic.StoreUint64(&yieldSeed, seed)
+	atomic.StoreUint32(&yieldPerm, uint32(permille))
+}
+
+func Emit(kind string, a uint64, b uint64, s string) {
+	sinkMu.RLock()
+	f := sink
+	if f != nil {
+		// The tick is taken while holding the read lock so that the order of
+		// ticks agrees with the order in which the caller's critical section
+		// (if any) was entered.
+		f(Event{Tick: Tick(), Kind: kind, A: a, B: b, S: s})
+	}
+	sinkMu.RUnlock()
+}
+
+func mix(x uint64) uint64 {
+	x ^= x >> 33
+	x *= 0xff51afd7ed558ccd
+	x ^= x >> 33
+	x *= 0xc4ceb9fe1a85ec53
+	x ^= x >> 33
+	return x
+}
+
+// Yield perturbs the schedule at a named site: with the configured
+// probability it yields the processor or sleeps for a short, seeded time.
+func Yield(site string) {
+	p := atomic.LoadUint32(&yieldPerm)
+	if p == 0 {
+		return
+	}
+	n := atomic.AddUint64(&yieldCtr, 1)
+	h := atomic.LoadUint64(&yieldSeed) ^ n*0x9e3779b97f4a7c15
+	for i := 0; i < len(site); i++ {
+		h = (h ^ uint64(site[i])) * 0x100000001b3
+	}
+	h = mix(h)
+	if uint32(h%1000) >= p {
+		return
+	}
+	switch (h >> 10) % 4 {
+	case 0, 1:
+		runtime.Gosched()
+	case 2:
+		time.Sleep(time.Duration(50+(h>>20)%200) * time.Microsecond)
+	default:
+		time.Sleep(time.Duration(200+(h>>20)%1800) * time.Microsecond)
+	}
+}
+
+// A child process (the CLI or the stdio service) can be given a yield
+// configuration through the environment: ESBUILD_VERIF_YIELD=<seed>:<permille>
+func init() {
+	if v := os.Getenv("ESBUILD_VERIF_YIELD"); v != "" {
+		if i := strings.IndexByte(v, ':'); i > 0 {
+			seed, err1 := strconv.ParseUint(v[:i], 10, 64)
+			perm, err2 := strconv.Atoi(v[i+1:])
+			if err1 == nil && err2 == nil {
+				SetYield(seed, perm)
+			}
+		}
+	}
+}
+
+var symbolTags uint32
+
+// SymbolTags reports whether the JavaScript printer should tag every
+// symbol-bound identifier with a comment naming its symbol.
+func SymbolTags() bool { return atomic.LoadUint32(&symbolTags) != 0 }
+func SetSymbolTags(on bool) {
+	if on {
+		atomic.StoreUint32(&symbolTags, 1)
+	} else {
+		atomic.StoreUint32(&symbolTags, 0)
+	}
+}
